@@ -140,6 +140,12 @@ try:
 except ImportError:
     pass
 
+try:
+    import gen_tarmember
+    MODULES['TarMember'] = gen_tarmember.generate
+except ImportError:
+    pass
+
 def main():
     args = sys.argv[1:]
     repo = '/repo'
